@@ -3683,12 +3683,16 @@ class Graph(_protocols.GraphProtocol, Sequence[Node], _display.PrettyPrintable):
         for value in self.initializers.values():
             self._name_authority.register_or_name_value(value)
 
-    def _set_node_graph_to_self_and_assign_names(self, node: Node) -> Node:
-        """Set the graph reference for the node and assign names to it and its outputs if they don't have one."""
+    def _check_node_can_be_added(self, node: Node) -> None:
+        """Raise if the node cannot be added to this graph. Changes nothing."""
         if node.graph is not None and node.graph is not self:
             raise ValueError(
                 f"The node '{node!r}' belongs to another graph. Please remove it first with Graph.remove()."
             )
+
+    def _set_node_graph_to_self_and_assign_names(self, node: Node) -> Node:
+        """Set the graph reference for the node and assign names to it and its outputs if they don't have one."""
+        self._check_node_can_be_added(node)
         # Give the node and its output values names if they don't not have one
         self._name_authority.register_or_name_node(node)
         for value in node._outputs:  # pylint: disable=protected-access
@@ -3840,6 +3844,10 @@ class Graph(_protocols.GraphProtocol, Sequence[Node], _display.PrettyPrintable):
         Raises:
             ValueError: If any node belongs to another graph.
         """
+        nodes = tuple(nodes)
+        # Check every node before claiming any of them so a rejected call changes nothing
+        for node in nodes:
+            self._check_node_can_be_added(node)
         nodes = [self._set_node_graph_to_self_and_assign_names(node) for node in nodes]
         self._nodes.extend(nodes)
 
@@ -3897,6 +3905,12 @@ class Graph(_protocols.GraphProtocol, Sequence[Node], _display.PrettyPrintable):
         """
         if isinstance(new_nodes, Node):
             new_nodes = (new_nodes,)
+        new_nodes = tuple(new_nodes)
+        # Check the anchor and every node before claiming any of them so a rejected call changes nothing
+        if node.graph is not self:
+            raise ValueError(f"The node '{node!r}' does not belong to this graph.")
+        for new_node in new_nodes:
+            self._check_node_can_be_added(new_node)
         new_nodes = [self._set_node_graph_to_self_and_assign_names(node) for node in new_nodes]
         self._nodes.insert_after(node, new_nodes)
 
@@ -3914,6 +3928,12 @@ class Graph(_protocols.GraphProtocol, Sequence[Node], _display.PrettyPrintable):
         """
         if isinstance(new_nodes, Node):
             new_nodes = (new_nodes,)
+        new_nodes = tuple(new_nodes)
+        # Check the anchor and every node before claiming any of them so a rejected call changes nothing
+        if node.graph is not self:
+            raise ValueError(f"The node '{node!r}' does not belong to this graph.")
+        for new_node in new_nodes:
+            self._check_node_can_be_added(new_node)
         new_nodes = [self._set_node_graph_to_self_and_assign_names(node) for node in new_nodes]
         self._nodes.insert_before(node, new_nodes)
 
